@@ -186,7 +186,7 @@ def translate():
     return r.returncode == 0, r.stdout
 
 
-def coq_make(targets, timeout=1500):
+def coq_make(targets, timeout=2400):
     """Full .vo build of the given targets (and what they depend on) under the lock."""
     lock = coq_lock()
     try:
@@ -390,6 +390,16 @@ class RunOut:
         return self.timed_out or self.rc is None or self.rc < 0 or self.rc >= 100 or b'ERROR: AddressSanitizer' in self.err or b'runtime error:' in self.err
 
 
+def _die_with_parent():
+    """preexec_fn: the child gets SIGKILL when the harness process dies (an ex session whose input ends without a quit
+    command spins in ex() for ever: without this a killed check run leaves such editors behind, each on a core)."""
+    try:
+        import ctypes
+        ctypes.CDLL(None).prctl(1, 9)       # PR_SET_PDEATHSIG, SIGKILL
+    except Exception:
+        pass
+
+
 def run_editor(exe, args, stdin_bytes, files=None, readback=(), timeout=10, env=None, keep=False):
     """Run the editor in a fresh directory.  files: {name: bytes} created first; args: argv after
     the executable (file names relative to the directory); readback: names to read afterwards.
@@ -407,7 +417,7 @@ def run_editor(exe, args, stdin_bytes, files=None, readback=(), timeout=10, env=
     t0 = time.time()
     timed_out = False
     p = subprocess.Popen([exe] + list(args), stdin=subprocess.PIPE, stdout=subprocess.PIPE, stderr=subprocess.PIPE,
-                         cwd=d, env=e, start_new_session=True)
+                         cwd=d, env=e, start_new_session=True, preexec_fn=_die_with_parent)
     try:
         out, err = p.communicate(stdin_bytes, timeout=timeout)
         rc = p.returncode
